@@ -222,6 +222,8 @@ typedef struct e1_cfg {
     void (*apply)(int ev);                 /* run the real code + oracles */
     void  *model; size_t model_size;       /* reference-model state: part of key and snapshot */
     size_t (*extra_key)(uint8_t *out, size_t cap);   /* optional addition to the key */
+    int    no_heap_key, no_model_key;      /* timed engines: the key is extra_key() alone (time-abstracted) */
+    uint64_t (*obs_hash)(void);            /* observation of a transition when it makes no port calls */
     void (*on_new_state)(int depth);       /* optional per-state invariant */
     void (*root_setup)(void);              /* optional: bring the reset world to the start state */
     int    max_depth;                      /* 0 = unbounded */
